@@ -103,7 +103,7 @@ func init() {
 	register(&Check{
 		ID:    "C08",
 		Level: "exploration",
-		Rule: "exhaustive enumeration of source texts: (1) all sequences of <= k tokens over a 66-token alphabet (one representative per parser-relevant class, incl. truncated strings/comments/regex literals) in each of 14 grammatical contexts; (2) every byte prefix and every token prefix of every corpus program (docs/examples, every source compiled by the repository's tests, generated programs covering each production); (3) every one-token deletion, duplication, adjacent swap and substitution by each alphabet token of those programs; (4) every regex-literal body of <= m chars over a 24-char alphabet; (5) every byte string of length <= 2 (thorough 3 over a 40-byte subset); " +
+		Rule: "exhaustive enumeration of source texts: (1) all sequences of <= k tokens over a 66-token alphabet (one representative per parser-relevant class, incl. truncated strings/comments/regex literals) in each of 14 grammatical contexts; (2) every byte prefix and every token prefix of every corpus program (docs/examples, every source compiled by the repository's tests, generated programs covering each production); (3) every one-token deletion, duplication, adjacent swap and substitution by each alphabet token of those programs; (4) every regex-literal body of <= m chars over a 24-char alphabet and every string-literal body of <= 5 chars over {backslash, x, 0, G, both quotes, blank, newline} in both quote styles; (5) every byte string of length <= 2 (thorough 3 over a 40-byte subset); " +
 			"oracle: program xor error, error printable, no panic, no hang (20 s / 2 GiB watchdog), accepted tree has no nil node and every command generated; non-trivial = distinct sources that Compile rejects with an error or accepts after a non-trivial parse (all sources are distinct by construction; counted: sources with >= 2 tokens)",
 		Assume: []string{"time/memory bound is decided as: within 20 s and 2 GiB per source on the enumerated short sources"},
 		Budget: map[string]int{"quick": 150, "thorough": 1500},
@@ -278,6 +278,27 @@ func runC08(c *Ctx) {
 					continue // thorough length 5 over an 18-char subset
 				}
 				gen(append(cur, ch))
+			}
+		}
+		gen(nil)
+		b.flush()
+	}
+	// (4b) string-literal bodies
+	for l := 0; l <= c.Pick(5, 6); l++ {
+		if !c.Level(fmt.Sprintf("string-bodies:len=%d", l)) {
+			return
+		}
+		b.label = "string"
+		alpha := "\\x0G'\" \n"
+		var gen func(cur []byte)
+		gen = func(cur []byte) {
+			if len(cur) == l {
+				b.add("find all '" + string(cur) + "'")
+				b.add("find all \"" + string(cur) + "\" 'a'")
+				return
+			}
+			for i := 0; i < len(alpha); i++ {
+				gen(append(cur, alpha[i]))
 			}
 		}
 		gen(nil)
